@@ -143,6 +143,23 @@ def step (st : St) (toks : List String) : St × String :=
                    | .ok l => renderAll l
                    | .error e => "exn=" ++ e.name)
       | none => "bad-op")
+  | ["exit", bt, v8, pfx, hex] =>
+    (st, match Proto.ofHex? pfx, Proto.ofHex? hex with
+      | some p, some d =>
+        let chk := s!"utp={match couldBeUtp d with | .ok b => toString b | .error _ => "exn"} " ++
+                   s!"trk={match couldBeTracker d with | .ok b => toString b | .error _ => "exn"} " ++
+                   s!"dht={couldBeDht d} v8={couldBeIpv8 d} "
+        chk ++ (match exitDatagramReceived { exitBT := bt == "1", exitIPv8 := v8 == "1", pfx := p } true d with
+          | .ok .tunneled => "tunneled"
+          | .ok .dropped => "dropped"
+          | .error e => "exn=" ++ e.name)
+      | _, _ => "bad-op")
+  | ["cellhdr", hex] =>
+    (st, match Proto.ofHex? hex with
+      | some d => (match cellFromBin d with
+                   | .ok c => s!"ok {c.cid} {c.plaintext} {c.relayEarly} {Proto.toHex c.message}"
+                   | .error e => "exn=" ++ e.name)
+      | none => "bad-op")
   | ["reset"] => ({}, "ok")
   | "net" :: rest =>
     match netStep st.net rest with
